@@ -8,6 +8,7 @@ import (
 
 	"github.com/smart-core-os/sc-api/go/types"
 	"github.com/smart-core-os/sc-golang/internal/testproto"
+	"github.com/smart-core-os/sc-golang/internal/verifhook"
 	"github.com/smart-core-os/sc-golang/internal/vt"
 )
 
@@ -194,6 +195,109 @@ func VT_C03_CollectionOneWriter() {
 		vt.Assert(found, "every-listed-item-is-in-the-view-with-its-value")
 	}
 	cancel()
+	vt.Reach("done")
+}
+
+// One id removed, re-added and removed again (then another id added) by one writer while a subscriber without
+// backpressure receives at the scheduler's pace: merged changes (remove+add = replace, replace+remove = remove, ...)
+// folded in order still end as List.
+func VT_C03_CollectionChurnOneId() {
+	c := NewCollection(WithInitialRecord("a", &T3{DefaultInt32: 1}))
+	// subscribed before the writer starts: this harness is about what the merge stage does to a long run of changes
+	// (the moment of subscribing is the subject of the other harnesses)
+	ctx, cancel := context.WithCancel(context.Background())
+	ch := c.Pull(ctx)
+	var wg sync.WaitGroup
+	wg.Add(1)
+	endsPresent := vt.Choose("endsPresent", 2) == 1
+	go func() {
+		defer wg.Done()
+		c.Delete("a")
+		c.Add("a", &T3{DefaultInt32: 2})
+		c.Delete("a")
+		if endsPresent {
+			c.Add("a", &T3{DefaultInt32: 4})
+		}
+		c.Add("b", &T3{DefaultInt32: 3})
+	}()
+	view := map[string]int32{}
+	seen := make(chan struct{})
+	go func() {
+		for e := range ch {
+			if e.Id == "z" {
+				close(seen)
+				continue
+			}
+			switch e.ChangeType {
+			case types.ChangeType_REMOVE:
+				vt.Assert(e.NewValue == nil, "remove-carries-no-new-value")
+				delete(view, e.Id)
+			default:
+				vt.Assert(e.NewValue != nil, "add-update-replace-carry-a-new-value")
+				if e.NewValue != nil {
+					view[e.Id] = e.NewValue.(*T3).DefaultInt32
+				}
+			}
+		}
+	}()
+	wg.Wait()
+	list := c.List()
+	c.Add("z", &T3{DefaultInt32: vtSentinel})
+	<-seen
+	vt.Assert(len(view) == len(list), "view-has-exactly-the-listed-items")
+	_, hasA := view["a"]
+	vt.Assert(hasA == endsPresent, "churned-id-in-view-iff-stored")
+	if endsPresent && hasA {
+		vt.Assert(view["a"] == 4, "churned-id-has-its-final-value")
+	}
+	vt.Assert(view["b"] == 3, "other-id-in-view")
+	cancel()
+	vt.Reach("done")
+}
+
+// A Collection subscription (no backpressure) opened exactly between the commit of an Add and the publication of its
+// event (window forced through the Collection.Update:before-publish hook), with a reader that only starts receiving
+// once the writer has stopped: the folded view equals List.
+// Known finding KF-C03-2: the seed already holds the item, its ADD event arrives afterwards, and a later REMOVE is
+// merged with that ADD into nothing, so the view keeps an item that no longer exists.
+func VT_C03_SubscribeBetweenCommitAndPublish() {
+	c := NewCollection()
+	ctx, cancel := context.WithCancel(context.Background())
+	defer cancel()
+	var ch <-chan *CollectionChange
+	prev := verifhook.Hook
+	defer func() { verifhook.Hook = prev }()
+	verifhook.Hook = func(point string) {
+		if point == "Collection.Update:before-publish" && ch == nil {
+			ch = c.Pull(ctx)
+		}
+	}
+	c.Add("a", &T3{DefaultInt32: 2})
+	second := vt.Choose("second", 3)
+	switch second {
+	case 0:
+		c.Delete("a")
+	case 1:
+		c.Update("a", &T3{DefaultInt32: 5})
+	}
+	list := c.List()
+	c.Add("z", &T3{DefaultInt32: vtSentinel})
+	view := map[string]int32{}
+	for e := range ch {
+		if e.Id == "z" {
+			break
+		}
+		switch e.ChangeType {
+		case types.ChangeType_REMOVE:
+			delete(view, e.Id)
+		default:
+			view[e.Id] = e.NewValue.(*T3).DefaultInt32
+		}
+	}
+	vt.AssertKF(len(view) == len(list), "view-has-exactly-the-listed-items-subscribe-between-commit-and-publish", "KF-C03-2", second == 0)
+	for _, m := range list {
+		vt.Assert(view["a"] == m.(*T3).DefaultInt32, "listed-item-is-in-the-view-with-its-value")
+	}
 	vt.Reach("done")
 }
 
